@@ -302,6 +302,20 @@ pub fn run(tier: &str) -> i32 {
     progs.extend(multi_var_space());
     progs.extend(lookalike_space());
     progs.extend(named_members_space());
+    // declarations-only modules (no entry point): structs reachable from variables are emitted and checked all the same
+    {
+        let n0 = progs.len();
+        for i in 0..n0 {
+            if (thorough || i % 9 == 0) && !progs[i].src.contains("@vertex") && !progs[i].src.contains("@fragment") {
+                if let Some(src) = without_entry_points(&progs[i].src) {
+                    let mut q = progs[i].clone();
+                    q.key = format!("no-entry|{}", q.key);
+                    q.src = src;
+                    progs.push(q);
+                }
+            }
+        }
+    }
     // member / element types written through `alias` declarations
     {
         let n0 = progs.len();
